@@ -144,6 +144,23 @@ CHECKS.update({
         note=TRUSTED + "Weights are integers over denominators 1, 2, 4."),
 })
 
+CHECKS.update({
+    "C18": dict(
+        category="other",
+        text=("findwalks is decided exactly: an L2 machine of its loop and a one-variable walker machine are "
+              "proved by TLC to count walks = integer matrix powers, and every real output is compared exactly. "
+              "For the real-valued measures TLC evaluates, on the 10^-6 fixed-point outputs of real calls, the "
+              "defining linear equations as integer residuals with spec-derived rounding budgets (MFPT, diffusion "
+              "efficiency, PageRank; plus exact Cramer solutions where determinants fit in 32 bits), cross-product "
+              "parallelism and Collatz-Wielandt bounds for the eigenvector, and exact partial sums of walk counts "
+              "with a remainder bound for subgraph centrality; lemma models prove the budgets sound on all small "
+              "inputs. This is residual/bound checking, not an accuracy proof: TLC has no reals."),
+        design="5 C18, 7",
+        technique="TLA+ walk-count machine model-checked by TLC; TLC evaluation of defining equations as integer residuals on recorded outputs",
+        note=TRUSTED + "Tolerances 2e-6..3e-4 as stated in spec/Trace_RandomWalk.tla; n<=7, small integer weights; "
+             "ill-conditioned inputs are out of reach."),
+})
+
 REASON_TODO = "check not built yet in this round (planned, see DESIGN.md section 9); nothing is claimed"
 
 
